@@ -8,7 +8,8 @@ class Prop(C02):
     props_file = 'Props/C06.v'
     required_theorems = ['dest_ids_unique', 'change_carries_current_list', 'skip_flags_sound', 'silent_prefix_unchanged',
                          'fold_all_changes_eq_locrib', 'best_only_consumer_correct', 'addpath_consumer_correct',
-                         'end_deferral_emits_all', 'deferred_insert_reports_only_withdrawal']
+                         'end_deferral_emits_all', 'deferred_insert_reports_only_withdrawal', 'addpath_window_eq_limited',
+                         'replaced_path_id_sound', 'alloc_lowest_free']
     extra_targets = ['Model/Rib.vo']
     rule = ('histories over 3 prefixes, 3 peers (each with a restarted session), path ids 0-2, with insert/replace/remove/drop/stale mark and purge/'
             'LLGR mark and purges/NO_LLGR purge/next-hop flips/start-end deferral; non-trivial = at least one change with best_changed=false or '
